@@ -1103,9 +1103,21 @@ func (c *Corpus) EnumerateSingleBlob(fn func(camtypes.BlobMeta) bool, br blob.Re
 // have one of the provided camliNodeType values, calling fn for each. If fn returns false,
 // enumeration ends.
 func (c *Corpus) EnumeratePermanodesByNodeTypes(fn func(camtypes.BlobMeta) bool, camliNodeTypes []string) {
+	// A permanode can be in several of the sets (it is in the set of every
+	// type it ever had), and a type can be listed twice: send each once.
+	var seen map[blob.Ref]bool
+	if len(camliNodeTypes) > 1 {
+		seen = make(map[blob.Ref]bool)
+	}
 	for _, t := range camliNodeTypes {
 		set := c.permanodesSetByNodeType[t]
 		for br := range set {
+			if seen != nil {
+				if seen[br] {
+					continue
+				}
+				seen[br] = true
+			}
 			if bm := c.blobs[br]; bm != nil {
 				if !fn(*bm) {
 					return
